@@ -14,6 +14,18 @@ checks = {
    text="findRetryAfter: found ==> wait >= 0 and only on 429/503 (all header values, clock arbitrary at every read); Basic policy: result == min unless the enabled hint applies, never negative; Linear policy: the dependency's documented range is passed through unchanged; Exponential policy: min <= result <= max for every n in [0,2^31], closed form min<<n capped at max for n <= 9, == max (or 0 when min == 0) above 100, monotone lemma; BackOffPolicyFactory: policy kind and Retry-After switch as a function of the configuration flags; parseDate proved equivalent to 'some of the five layouts parses'.",
    note="Trusted: govc, go/ssa, solvers; math.Pow(2,float64(n)) exact power of two (IEEE), retryablehttp.LinearJitterBackoff's documented range, strconv.ParseInt/time.Parse as deterministic functions. Not decided: attempt counting inside retry-go (RetryIf/RetryOnError hand the configuration to retry.Do; the dependency's loop is not under contract), closed form of the exponential policy for 9 < n <= 100 (solver limit on fp.mul with a symbolic exponent; range and the two outer closed forms are proved), wall-clock spacing.",
    ref="§5 C14"),
+ "C20": dict(level="proof", technique="contract-based deductive verification: ghost byte-stream state (bytes fed to the hasher since its last Reset) as postcondition on every exit path of the real functions",
+   text="(*hashingAlgo).CalculateWithContext / Calculate: given a pristine hasher, on EVERY exit (success, nil reader, read error, cancellation) the hasher is pristine again, no other hasher is touched, and on success the result is hex(Sum) over exactly the bytes the reader had to deliver; newHashingAlgorithm never fails.",
+   note="Trusted: govc, go/ssa, solvers; hash.Hash (Reset empties the state, Sum is a function of object and bytes fed), the byte flow through safeio.CopyDataWithContext (dst receives src's bytes in order: trusted clause, wrapper transparency of contextio not proved). Not decided: that md5/sha1/sha256/blake2b/xxhash/murmur3 equal their reference digests and are chunking independent (dependency code); fileHashing.calculateFile handle balance belongs to C06.",
+   ref="§5 C20"),
+ "C09": dict(level="proof", technique="contract-based deductive verification: schema contracts over every context-accepting function of the filesystem package (call-site assertions discharged by SMT), contracts on the safeio helpers, per-iteration typestate",
+   text="safeio: ReadAtMost returns at most max bytes and is non-empty on success, CopyNWithContext copies exactly n or errs, all helpers refuse a done context without touching the streams. filesystem (73 functions): with a context already done at the call (ctxDone), no mutating backend operation is reached - also through context-free helpers, and a context handed on is the caller's - and the call fails (non-nil; exactly the context kind for removal with a live resource); inside every loop each backend operation is preceded in the same iteration by a context test.",
+   note="Trusted: govc, go/ssa, solvers; context.Context.Err (once done always done), io.CopyN/LimitReader/bytes.Buffer contracts, values of FS/ICloseableFS are *VFS. Not decided: that the error under a done context is always the context KIND (several operations validate arguments with backend reads first and may report that failure instead - they do fail); real asynchrony; io.Copy buffer boundaries; Parallelise-based garbage collection fan-out.",
+   ref="§5 C09"),
+ "C07": dict(level="proof", technique="contract-based deductive verification: schema contract on all 120 *VFS methods - every backend call site carries the assertion 'resource not closed', discharged from the guard's own contract",
+   text="Closed-resource guard: on every path of every *VFS method, each operation reaching the backend (afero.Fs methods, the optional backend interfaces, afero helpers over fs.vfs) is dominated by the closed-resource test, so a closed zip/tar filesystem serves nothing; direct accessors return the 'failed condition' kind once closed; the guard helper itself is proved (nil iff open). Fields of VFS are proved immutable after construction.",
+   note="Trusted: govc, go/ssa, solvers; ICloseableResource.IsClosed as a deterministic predicate during one call (no concurrent Close). Not decided (dependency code): the byte-level zip->unzip round trip, zipfs/tarfs views, read-only refusal by afero.ReadOnlyFs; the returned-list clause is covered by C02/C03's work on unzip.",
+   ref="§5 C07"),
 }
 not_applicable = {
  "C05": "observable is the set of live OS processes and a wall-clock bound (kernel, os/exec, gopsutil): no contract on a /repo function can state it",
